@@ -981,6 +981,31 @@ func (env *SpecEnv) call(x ECall) (SVal, error) {
 		env.cur, env.inOld = saveCur, saveOld
 		return v, err
 	}
+	if x.Fn == "iterold" {
+		// iterold(e): e at the head of the current iteration (variants)
+		if len(x.Args) != 1 || env.fr == nil || env.fr.curIterState == nil {
+			return SVal{}, fmt.Errorf("iterold(e) is only available in decreases clauses")
+		}
+		saveCur, saveOld := env.cur, env.inOld
+		env.cur, env.inOld = env.fr.curIterState, false
+		savedVals := map[*ssa.Phi]Val{}
+		for phi, ev := range env.fr.curIterPhis {
+			if cur, ok := env.fr.vals[phi]; ok {
+				savedVals[phi] = cur
+			}
+			env.fr.vals[phi] = ev
+		}
+		v, err := env.eval(x.Args[0])
+		for phi := range env.fr.curIterPhis {
+			if cur, ok := savedVals[phi]; ok {
+				env.fr.vals[phi] = cur
+			} else {
+				delete(env.fr.vals, phi)
+			}
+		}
+		env.cur, env.inOld = saveCur, saveOld
+		return v, err
+	}
 	if x.Fn == "addr" {
 		// addr(x): the address of the local variable x (a variable whose
 		// address is taken lives in a cell; pointers to it compare equal to this)
